@@ -42,6 +42,19 @@ def spread(xs, k=4):
     return [xs[int(i * step)] for i in range(k)]
 
 
+def spread_by_kind(p, idx, k=5):
+    """at most k line indices, but at least one per (line kind, keyword / statement kind) present"""
+    seen, first = set(), []
+    for i in idx:
+        l = p.lines[i]
+        key = (l.kind, l.meta.get("kw") or l.meta.get("stmt"))
+        if key not in seen:
+            seen.add(key)
+            first.append(i)
+    rest = [i for i in spread(idx, k) if i not in first]
+    return sorted(first + rest[:max(0, k - len(first))])
+
+
 def fits(prog, idx):
     return width(prog.lines[idx].default_text()) <= 80
 
@@ -49,7 +62,7 @@ def fits(prog, idx):
 # ------------------------------------------------------------------ whitespace and layout
 @op("01_trailing_space", "SPC_BEFORE_NL")
 def trailing_space(p):
-    for i in spread(lines_of(p, *CODE_KINDS)):
+    for i in spread_by_kind(p, lines_of(p, *CODE_KINDS), 8):
         q = mod_line(p, i, p.lines[i].parts + [" "])
         if fits(q, i):
             yield q, [i + 1]
@@ -407,16 +420,18 @@ def ternary(p):
 
 @op("46_assignment_in_condition", "ASSIGN_IN_CONTROL")
 def assign_in_cond(p):
-    for i in spread(lines_of(p, "ctrl")):
+    for i in spread_by_kind(p, lines_of(p, "ctrl")):
         l = p.lines[i]
-        if l.meta.get("kw") in ("if", "while"):
+        if l.meta.get("kw") in ("if", "while", "else if"):
             q = mod_line(p, i, [l.parts[0], l.meta["kw"] + " (zz = 1)"])
+            yield q, [i + 1]
+            q = mod_line(p, i, [l.parts[0], l.meta["kw"] + " ((zz = 1) > 0)"])
             yield q, [i + 1]
 
 
 @op("47_keyword_glued_to_parenthesis", "SPACE_AFTER_KW")
 def kw_glued(p):
-    for i in spread(lines_of(p, "ctrl")):
+    for i in spread_by_kind(p, lines_of(p, "ctrl")):
         l = p.lines[i]
         kw = l.meta.get("kw")
         if kw in ("if", "while", "else if"):
